@@ -1,10 +1,10 @@
 ID = 'C19'
 TITLE = 'Called seqlets are well-formed spans whose reported statistics match the input'
-CONTRACT_MODULES = []
-FUNCTIONS = []
+CONTRACT_MODULES = ['contracts.seqlet_c']
+FUNCTIONS = ['tangermeme.seqlet._recursive_seqlets#emit']
 BOUNDED = 'bounded.C19'
 BOUNDED_BUDGET = {'quick': 60, 'thorough': 600}
 LEVEL = 'other'
-EXPLANATION = 'bounded stand-in only so far: planted bumps; span/attribution/p-value/sortedness/suppression clauses'
-ASSUMPTIONS = []
+EXPLANATION = ('deductive (emission block of _recursive_seqlets as a fragment contract): appended seqlet fields, 0 <= start < end <= l, attribution = prefix-sum difference with csum[-1] = 0 (no wrapped index). bounded: planted bumps; span / attribution / p-value / sortedness / suppression / frame clauses on the real callers')
+ASSUMPTIONS = ['context of the emission block (start from argmin of a length-l row, core extended at least once) is assumed', 'prefix_sum_diff (Lean): csum[b-1]-csum[a-1] = sum over [a,b)']
 TRUSTED = []
